@@ -23,6 +23,7 @@ fn event(s: &PartialDSym, big: bool, class: usize, perm: Option<&Vec<usize>>, gr
     let mut e = json!({"ev": "canonical", "grp": grp, "in": dsym_json(s), "big": big,
                        "lin": {"class": class, "perm": perm.map(|p| p[1..].to_vec()).unwrap_or_default()}});
     pending(&e);
+    if !big { with_decoy(s, |d| { let _ = canonical(d); }); }
     match catch(|| {
         let c = canonical(s);
         let map = minimal_traversal_code(s).get_map();
